@@ -19,6 +19,8 @@ CLAIMED = {
          "Same bounds as C11. Governance actions run through the routed proposal handler in a cache context."),
  "C16": ("ICS20.tla (transfer application verdict, conversion hook, what the IBC core commits) is model-checked by TLC for AckAlwaysCommitted, SuccessAcked and Backed; TLC-generated receive/register/toggle/parameter sequences are replayed through ibc-go's real core between two teleport applications, and TLC judges on every real receive: AckCommitted, AckPreserved (committed acknowledgement = the wrapped application's), SuccessAcked, ConversionAtomic, FailedTransferNoEffect, OtherDenomsUntouched, plus conformance.",
          "Packet classes: registered/unregistered voucher, enabled/disabled pair and module, valid/invalid/blocked receiver, valid/zero/negative/non-numeric amount. Returning native coins are not in the replay yet."),
+ "C17": ("Adapter.tla (call paths direct / forwarding contract / delegatecall / look-alike emitter / reverting forwarder x delegate, undelegate, withdraw, vote x valid and invalid arguments, deposit burn) is model-checked by TLC for Conserved, FailedTxChangesNothing, OnlySystemContractEvents, ForCallerOnly; TLC-generated sequences are replayed as signed EVM transactions on the real application and TLC judges on the real staking/gov/bank state after every step: ForCallerOnly, ExactArgs, OnlySystemContractEvents (native store digest), FailedTxChangesNothing (digest), SupplyUnchanged, BurnToCollector.",
+         "Helper contracts are hand-assembled byte code. One validator. Redelegation and weighted votes are not yet in the replay."),
  "C13": ("Store.tla (store keys as byte-token sequences, the iterators that parse them back, Export/Validate/Import) is model-checked by TLC for RoundTrip, Valid, Idempotent, ParseBack and Injective over all byte patterns of heights and revisions (including the separator byte inside binary heights); TLC-generated create/update/toggle sequences are replayed on the real application and after every step a real genesis round trip (export, module validation, InitChain of a fresh application, raw store comparison, second export) is judged by TLC, and the keys the model predicts to be lost are compared with the keys really lost.",
          "Client types in the replay: Tendermint (synthetic counterparty, real signed headers) and TSS. W=2 abstract bytes per uint64 over {0x2f,0x61,0x00}. Raw comparison covers the xibc and aggregate stores and the parameter subspaces of xibc/aggregate/rvesting."),
  "C18": ("Lifecycle.tla (create/upgrade/toggle proposals with valid and invalid contents, MsgUpdateClient per client type) is model-checked by TLC for Initialised, ConsHaveMeta, TssKeepsNothing, FailureChangesNothing, UpgradeKeepsType, ToggleChangesType, CreateOnlyUnused; TLC-generated sequences are replayed on the real application against a real counterparty chain, and TLC judges on the recorded real client store after every step: InstallsExactly, Initialised, Usable (Status active, a real proof at the installed height verifies, a valid update succeeds), FailureChangesNothing (store digest), ValidUpdateSucceeds for every type, plus conformance of every step.",
